@@ -14,3 +14,17 @@ check("C13", "model_checking",
       "sequences over 12 keys sampled; iteration is atomic; MemDB is the reference semantics",
       "TLA+ refinement model + TLC-exported edge cover replayed on real code + TLC trace validation",
       "DESIGN.md#c13")
+
+HOOK_COMMITS += ["8c6f3d7e", "dd9c6b9e"]
+
+check("C20", "model_checking",
+      "TLC explores the implementation-shaped Tracker model (tracker loop split at its unlocked peek / sleep / remove "
+      "steps, announcers pre-empted before RegisterPull) exhaustively within small bounds and checks every property clause "
+      "on every transition; TLC-exported schedules are replayed exactly on the real PushPullManager + DefaultPushTracker + "
+      "DefaultHolder under a virtual clock with hook gates, and the recorded traces are validated by TLC: property clauses "
+      "on the observed pre/post state of every step (verdict) and equality with the model's prediction (drift).",
+      "bounds: 2-3 peers x 2 hashes, delay 2 ticks, horizon 4-5, <= 6 announcements, one pre-empted announcer at a time; "
+      "larger instances by random walks; manager-loop forwarding folded into the emitting step; go-cache expiry and the gc "
+      "goroutine are outside the schedules; data races are the race detector's verdict, not TLC's",
+      "TLA+ interleaving model + exact schedule replay via virtual clock and hook gates + TLC trace validation",
+      "DESIGN.md#c20")
